@@ -784,7 +784,8 @@ class Oracles:
             # the delay is only consulted once a unit of work is complete (combiner: recipe gathered)
             nr = self.nrec[w]
             moved = sum(1 for l in nr.life if (nr.type != "combiner" or "complete_t" in l))
-        if moved == 0 and inv["kind"] not in ("edge-capacity", "buffer-mode", "nonblocking-source-zero-iat", "index-out-of-range-in", "index-out-of-range-out"):
+        if moved == 0 and inv["kind"] not in ("edge-capacity", "buffer-mode", "nonblocking-source-zero-iat", "index-out-of-range-in", "index-out-of-range-out",
+                                              "node-without-out-edge", "node-without-in-edge", "source-with-in-edge", "sink-with-out-edge"):
             self.probe("c20_invalid_not_exercised")
             return
         self.violate("C20", "invalid-accepted:" + inv["kind"], self.nrec[w].type if w in self.nrec else self.erec[w].type,
